@@ -97,7 +97,10 @@ func main() {
 		}
 	case "sweep":
 		ta := NewTestApp(GenOpts{Time: time.Unix(1690000000, 0).UTC()})
-		if *profile == "values" {
+		if *profile == "clock" {
+			require, caseType, fn = "HandlersSweep", "(msg * Z * Z)%type", "vmismatches"
+			terms = runSweepClock(ta, rep)
+		} else if *profile == "values" {
 			require, caseType, fn = "HandlersSweep", "(msg * Z * Z)%type", "vmismatches"
 			terms = runSweepValues(ta, rep, *seed, lo, hi)
 		} else {
